@@ -60,7 +60,7 @@ func copySourcesAreWritten(c *core.Ctx, rels ...string) {
 				return
 			}
 			bad++
-			c.Bad("copy-source-is-written@"+fname(f)+":"+p.Position(call.Pos()), call.Pos(), "copy reads from a local array that nothing has written (destination and source exchanged?): the array that was to receive the bytes — a derived key, an authentication tag — stays zero")
+			c.Bad(seqKey(c, "copy-source-is-written@"+fname(f)), call.Pos(), "copy reads from a local array that nothing has written (destination and source exchanged?): the array that was to receive the bytes — a derived key, an authentication tag — stays zero")
 		})
 	}
 	c.Count("copy_calls", n)
@@ -457,7 +457,7 @@ func tempFileInStorageDirectory(c *core.Ctx) {
 					return ok && core.Callee(call) != nil && cn(core.Callee(call)) == "dir" && core.TypeIs(recvType(core.Callee(call)), tFileStorage)
 				})
 			}
-			c.Check(isDir(elems[0]), "path-starts-at-storage-directory@"+fname(f)+":"+p.Position(i.Pos()), i.Pos(), "the joined path starts at the directory of the storage",
+			c.Check(isDir(elems[0]), seqKey(c, "path-starts-at-storage-directory@"+fname(f)), i.Pos(), "the joined path starts at the directory of the storage",
 				"a path of the file storage is joined with the directory somewhere else than in front: the file — the temporary file of a write — lies outside the storage directory (or cannot be created at all)")
 		})
 	}
@@ -513,7 +513,7 @@ func callbackArgumentOrder(c *core.Ctx) {
 		}
 		checked++
 		nw, old := args[len(args)-2], args[len(args)-1]
-		c.Check(nw == store.Val && isOld(old) && !isOld(nw), "callback-argument-order@"+fname(uv)+":"+p.Position(i.Pos()), i.Pos(), "(…, stored value, previous value)",
+		c.Check(nw == store.Val && isOld(old) && !isOld(nw), seqKey(c, "callback-argument-order@"+fname(uv)), i.Pos(), "(…, stored value, previous value)",
 			"the callbacks are handed (…, new, old) with the two exchanged, or not the stored and the previous value: the application's update callback receives the value that was there before as the new one")
 		// inside the dispatcher: fn(…, newValue, oldValue) in parameter order
 		if h != nil && h.Blocks != nil && len(h.Params) >= 2 {
@@ -530,7 +530,7 @@ func callbackArgumentOrder(c *core.Ctx) {
 					return
 				}
 				checked++
-				c.Check(dc.Args[len(dc.Args)-2] == ssa.Value(pn) && dc.Args[len(dc.Args)-1] == ssa.Value(po), "callback-argument-order@"+fname(h)+":"+p.Position(j.Pos()), j.Pos(), "fn(…, newValue, oldValue)",
+				c.Check(dc.Args[len(dc.Args)-2] == ssa.Value(pn) && dc.Args[len(dc.Args)-1] == ssa.Value(po), seqKey(c, "callback-argument-order@"+fname(h)), j.Pos(), "fn(…, newValue, oldValue)",
 					"the dispatcher calls the registered functions with new and old value exchanged")
 			})
 		}
@@ -637,7 +637,7 @@ func decoderTagAndAppend(c *core.Ctx) {
 			args := core.Args(i)
 			nSplit++
 			sep, isK := core.ConstString(args[1])
-			c.Check(isLookup(args[0]) && isK && sep != "", "tag-text-is-split@"+fname(f)+":"+p.Position(i.Pos()), i.Pos(), "the struct tag's text is what is split, at a constant separator",
+			c.Check(isLookup(args[0]) && isK && sep != "", seqKey(c, "tag-text-is-split@"+fname(f)), i.Pos(), "the struct tag's text is what is split, at a constant separator",
 				"the decoder splits something else than the text of the struct tag (text and separator exchanged?): the tag of every field is parsed from the wrong string — all fields read tag 0")
 		}
 		if core.IsCall(i, "reflect.Append") {
@@ -656,7 +656,7 @@ func decoderTagAndAppend(c *core.Ctx) {
 					}
 				}
 			}
-			c.Check(listOK && elemOK, "list-append-order@"+fname(f)+":"+p.Position(i.Pos()), i.Pos(), "reflect.Append(the list, the element's value)",
+			c.Check(listOK && elemOK, seqKey(c, "list-append-order@"+fname(f)), i.Pos(), "reflect.Append(the list, the element's value)",
 				"reflect.Append does not receive (the list made with MakeSlice, the decoded element): list and element exchanged — the append panics (C17: arbitrary bytes never panic) or the list stays empty")
 		}
 	})
@@ -1185,4 +1185,40 @@ func nameProfileErrorHandled(c *core.Ctx) {
 	if n == 0 {
 		c.Note("name-profile-error-handled", token.NoPos, "no call of a PRECIS profile in the library")
 	}
+}
+
+// requestNumbersAreWhatConvertReads (C09: what a controller writes is what the application reads): a number in a request body reaches
+// the characteristic as the Go value the JSON decoder makes of it, and convert coerces by Go type. With UseNumber on the request decoder
+// every number arrives as a json.Number — a named string type the float conversion has no case for: every write to a float
+// characteristic stores 0 (clamped into its bounds). The decoder of the HTTP layer keeps encoding/json's default (float64), unless the
+// conversion has a case for json.Number.
+func requestNumbersAreWhatConvertReads(c *core.Ctx) {
+	p := c.P
+	var use ssa.Instruction
+	handles := false
+	for _, f := range libFuncs(p) {
+		if f.Pkg == nil {
+			continue
+		}
+		switch f.Pkg.Pkg.Path() {
+		case mod + "/hap/http":
+			core.Instrs(f, func(i ssa.Instruction) {
+				if core.IsCall(i, "(*encoding/json.Decoder).UseNumber") {
+					use = i
+				}
+			})
+		case mod + "/characteristic":
+			core.Instrs(f, func(i ssa.Instruction) {
+				if ta, ok := i.(*ssa.TypeAssert); ok && core.TypeIs(ta.AssertedType, "encoding/json.Number") {
+					handles = true
+				}
+			})
+		}
+	}
+	if use == nil {
+		c.OK("request-numbers-are-what-convert-reads", token.NoPos, "the HTTP layer decodes numbers the default way (float64)")
+		return
+	}
+	c.Check(handles, "request-numbers-are-what-convert-reads", posOf(use), "the conversion has a case for json.Number",
+		"the request decoder is switched to UseNumber: every number a controller writes arrives as a json.Number, which the conversion by format has no case for — a write to a float characteristic stores 0 (clamped), the remote-update callback receives it or is not called at all")
 }
